@@ -4,10 +4,10 @@ package main
 
 import (
 	"fmt"
-	"strconv"
 	"go/token"
 	"go/types"
 	"sort"
+	"strconv"
 	"strings"
 
 	"golang.org/x/tools/go/ssa"
@@ -746,7 +746,6 @@ func (e *Engine) afterHavocPhi(s *State, f *Frame, lp *loop, p *ssa.Phi, init, v
 	_ = strings.HasPrefix
 }
 
-
 // ---------------------------------------------------------------- static call graph (recursion cycles)
 
 var calleesMemo = map[*ssa.Function][]*ssa.Function{}
@@ -853,7 +852,6 @@ func (e *Engine) reaches(from, to *ssa.Function) bool {
 	return res
 }
 
-
 // appendOnlyPhi: every back-edge input of the slice phi is the phi itself or append(<same chain>, ...).
 func appendOnlyPhi(lp *loop, p *ssa.Phi) bool {
 	visiting := map[ssa.Value]bool{}
@@ -888,7 +886,6 @@ func appendOnlyPhi(lp *loop, p *ssa.Phi) bool {
 	}
 	return true
 }
-
 
 // checkIterationEnsures: at a back edge, the effects of the iteration just completed (trace events
 // appended since the loop head) satisfy the loop's iteration-ensures clauses.
